@@ -136,6 +136,7 @@ type getSpec struct {
 	Deadline  bool // ctx carries a (far) deadline
 	Mutate    int  // 0: no, 1: overwrite key buffer with another live key, 2: noise
 	MutateTo  int
+	ReuseBuildCtx bool // the Get is issued with a context kept from an earlier build of this key (a builder that stores its ctx)
 }
 
 type foAPI interface {
@@ -176,6 +177,8 @@ type foRun struct {
 	holdMax   time.Duration // free mode: builder holds its slot this long (random up to)
 	prepop    map[int]string
 	t0        time.Time
+	captured  map[int]context.Context // per key: the context the first builder of that key ran with
+	gate0     chan struct{}          // optional: builders of key 0 additionally wait here
 	hostileAt int64 // >0: at this logger call-out (counted per run) somebody else calls ExpireAll on the backend
 	calloutN  int64
 	gateBG    chan struct{} // optional: background builders wait here (non-steered scenario tests)
@@ -665,6 +668,12 @@ func (r *foRun) makeBuilder(getID, key int, callerGID int64) func(ctx context.Co
 		overlap := r.active[key] > 1
 		inv := r.buildCount[key]
 		r.buildCount[key]++
+		if r.captured == nil {
+			r.captured = map[int]context.Context{}
+		}
+		if r.captured[key] == nil {
+			r.captured[key] = ctx
+		}
 		r.mu.Unlock()
 		ev := foEvent{Kind: "build.enter", Get: getID, Key: key, N: n, TTL: int64(cache.TTL(ctx)), CtxErr: ctxErrStr(ctx), CtxGet: ctxGetID(ctx), Skip: cache.SkipRead(ctx)}
 		_, ev.Deadl = ctx.Deadline()
@@ -685,6 +694,9 @@ func (r *foRun) makeBuilder(getID, key int, callerGID int64) func(ctx context.Co
 		if r.gateBG != nil && ev.BG {
 			r.bgEntered <- getID
 			<-r.gateBG
+			if key == 0 && r.gate0 != nil {
+				<-r.gate0
+			}
 		}
 		r.sched.yield(ctx, "build.enter")
 		out := r.script(key, inv)
@@ -742,7 +754,15 @@ func (s *sched) curTask() *task {
 func (r *foRun) doGet(taskID int, spec getSpec) {
 	getID := int(atomic.AddInt64(&r.getN, 1))
 	keyBuf := clone(r.keys[spec.Key])
-	ctx := context.WithValue(bg, foCtxKey{}, getID)
+	base := context.Context(bg)
+	if spec.ReuseBuildCtx {
+		r.mu.Lock()
+		if c := r.captured[spec.Key]; c != nil {
+			base = c
+		}
+		r.mu.Unlock()
+	}
+	ctx := context.WithValue(base, foCtxKey{}, getID)
 	var cancel context.CancelFunc
 	if spec.Deadline {
 		ctx, cancel = context.WithTimeout(ctx, time.Hour)
